@@ -167,10 +167,12 @@ tmp_dh_cb(SSL *s __attribute__ ((unused)), int export __attribute__ ((unused)), 
 }
 #endif
 
-static int __attribute__((nonnull(1, 2)))
+static int __attribute__((nonnull(1)))
 tls_out(const char *s1, const char *s2, const int def_return)
 {
-	const char *msg[] = {"454 4.3.0 TLS ", s1, ": ", s2, NULL};
+	/* s2 comes from ssl_strerror(), which returns NULL if neither OpenSSL nor errno
+	 * report an error, e.g. if the peer ended the handshake with a close_notify alert */
+	const char *msg[] = {"454 4.3.0 TLS ", s1, s2 ? ": " : NULL, s2, NULL};
 	int r = net_writen(msg);
 
 	return r ? r : def_return;
